@@ -64,6 +64,11 @@ def build(case):
             t0 = (np.arange(shape[a0], dtype=float) * 2 + 100 * k) * u.m
             t1 = (np.arange(shape[a1], dtype=float) ** 2 + 7 * k) * u.m
             from ndcube.extra_coords.table_coord import QuantityTableCoordinate
+            if (case["wseed"] + k) % 2:
+                # the same coordinates spelled the other way round: axes given in descending order, tables to match
+                cube.extra_coords.add((f"qb{k}", f"qa{k}"), (a1, a0),
+                                      QuantityTableCoordinate(t1, t0, names=(f"qb{k}", f"qa{k}"), physical_types=(f"custom:qb{k}", f"custom:qa{k}")))
+                continue
             cube.extra_coords.add((f"qa{k}", f"qb{k}"), (a0, a1),
                                   QuantityTableCoordinate(t0, t1, names=(f"qa{k}", f"qb{k}"), physical_types=(f"custom:qa{k}", f"custom:qb{k}")))
             continue
@@ -141,6 +146,28 @@ def run(case):
         types = [str(t) for t in pll.world_axis_physical_types] + ([] if ell is None else [str(t) for t in ell.world_axis_physical_types])
         if [str(t) for t in cll.world_axis_physical_types] != types:
             fails.append("world axes are not the primary's followed by the extra coords'")
+        # the extra coordinates are the tables the user gave, on the axes the user named (whatever the spelling of
+        # the request): at an array element the combined wcs reports the generating formula of each Quantity table
+        if case["pre"] is None and not fails:
+            names = list(cll.world_axis_names)
+            units_ = list(cll.world_axis_units)
+            # (two elements with other indices on every axis, array order)
+            for el in ([min(a, n - 1) for a, n in enumerate(shape)], [max(n - 1 - a, 0) for a, n in enumerate(shape)]):
+                wv = W.p2w(cll, el[::-1])
+                for k, ec in enumerate(case["ecs"]):
+                    expect = {}
+                    if ec["kind"] == "quantity2":
+                        a0, a1 = ec["axis"]
+                        expect = {f"qa{k}": el[a0] * 2 + 100 * k, f"qb{k}": el[a1] ** 2 + 7 * k}
+                    elif ec["kind"] == "quantity":
+                        expect = {f"q{k}": el[ec["axis"]] ** 2 + 3 * el[ec["axis"]] + 10 * k}
+                    for nm, val in expect.items():
+                        if nm not in names:
+                            fails.append(f"extra coordinate {nm} is not a world axis of the combined wcs ({names})")
+                        else:
+                            got_m = float(wv[names.index(nm)]) * float(u.Unit(units_[names.index(nm)]).to(u.m))
+                            if not np.isclose(got_m, val, rtol=1e-9, atol=1e-9):
+                                fails.append(f"array element {el}: {nm} is {got_m} m, the table given for that axis holds {val} m")
         # positions on and between grid points (inside the tables' ranges)
         pts = []
         for _ in range(5):
